@@ -810,10 +810,6 @@ func worker(h *NtfnsHandler) {
 						"walletId": task.walletId,
 						"err":      err,
 					})
-					if err == txmgr.ErrUnexpectedCreditNotFound {
-						// TODO: mark status failed
-						fin = true
-					}
 					if err == ErrTaskAbort {
 						// stopping: the import resumes from the wallet status at restart
 						continue
